@@ -112,21 +112,30 @@ func (s *Service) Start(ctx context.Context) error {
 		return ErrServiceReturned
 	}
 
+	verifAt(ctx, "srv.Service.Start.checked", s)
 	if s.isRunning.Swap(true) {
 		return ErrServiceAlreadyStarted
 	}
 
+	verifAt(ctx, "srv.Service.Start.swapped", s)
+
+	verifAt(ctx, "srv.Service.Start.claimed", s)
 	s.doStart.Do(func() {
 		defer s.isRunning.Store(true)
+		defer s.verifYield("srv.Service.Start.started")
 		defer s.isStarted.Store(true)
 		ec := &s.ec
 		ehSignal := make(chan struct{})
 		mainSignal := make(chan struct{})
 		s.wg.Add(1)
 		go func() {
+			defer s.verifYield("srv.Service.handler.done")
 			defer s.wg.Done()
+			defer s.verifYield("srv.Service.handler.exit")
 			defer erc.Recover(ec)
+			s.verifYield("srv.Service.handler.entry", mainSignal)
 			<-mainSignal
+			s.verifYield("srv.Service.handler.main", ehSignal)
 			<-ehSignal
 			eh := s.ErrorHandler.Get()
 			if eh != nil {
@@ -145,42 +154,61 @@ func (s *Service) Start(ctx context.Context) error {
 			shutdown := s.Shutdown
 			s.wg.Add(1)
 			go func() {
+				defer s.verifYield("srv.Service.shutdown.done")
 				defer s.wg.Done()
+				defer s.verifYield("srv.Service.shutdown.exit")
 				defer close(shutdownSignal)
+				defer s.verifYield("srv.Service.shutdown.closing")
 				defer erc.Recover(ec)
+				s.verifYield("srv.Service.shutdown.entry", ctx)
 				<-ctx.Done()
 				s.ec.Add(shutdown())
 			}()
 		} else {
 			s.wg.Add(1)
 			go func() {
+				defer s.verifYield("srv.Service.shutdown.done")
 				defer s.wg.Done()
+				defer s.verifYield("srv.Service.shutdown.exit")
 				defer close(shutdownSignal)
+				defer s.verifYield("srv.Service.shutdown.closing")
 				defer erc.Recover(ec)
+				s.verifYield("srv.Service.shutdown.entry", ctx)
 				<-ctx.Done()
 			}()
 		}
 
 		s.wg.Add(1)
 		go func() {
+			defer s.verifYield("srv.Service.run.done")
 			defer s.wg.Done()
+			defer s.verifYield("srv.Service.run.exit")
 			defer close(mainSignal)
+			defer s.verifYield("srv.Service.run.closing")
 			defer s.isRunning.Store(false)
+			defer s.verifYield("srv.Service.run.finished")
 			defer s.isFinished.Store(true)
+			defer s.verifYield("srv.Service.run.cleaned")
 			if s.Cleanup != nil {
 				cleanup := s.Cleanup
 				// this catches a panic during shutdown
 				defer erc.Recover(ec)
 				defer func() { ec.Add(cleanup()) }()
 			}
+			defer s.verifYield("srv.Service.run.signalled")
 			defer func() { defer close(ehSignal); <-shutdownSignal }()
+			defer s.verifYield("srv.Service.run.recovered", shutdownSignal)
 			// this catches a panic in the execution of
 			// the startup/op hook
 			defer erc.Recover(ec)
+			defer s.verifYield("srv.Service.run.cancelled")
 
 			defer s.cancel()
+			defer s.verifYield("srv.Service.run.returned")
+			s.verifYield("srv.Service.run.entry")
 			ec.Add(s.Run(ctx))
 		}()
+		verifAt(ctx, "srv.Service.Start.launched", s)
 	})
 
 	return nil
@@ -214,10 +242,12 @@ func (s *Service) waitFor(ctx context.Context) error {
 		return s.ec.Resolve()
 	}
 
+	s.verifYield("srv.Service.Wait.checked")
 	if !s.isStarted.Load() {
 		return fmt.Errorf("%s: %w", s.String(), ErrServiceNotStarted)
 	}
 
+	s.verifYield("srv.Service.Wait.started", &s.wg)
 	s.wg.Wait(ctx)
 	return s.ec.Resolve()
 
